@@ -531,6 +531,12 @@ func (p *Prog) ReachingStore(v ssa.Value, at ssa.Instruction) ssa.Value {
 	}
 	cell := CellRoot(u.X)
 	if cell == nil {
+		// a field of a struct handed around by pointer: the one value last stored through that pointer, when decidable
+		if _, isFA := u.X.(*ssa.FieldAddr); isFA {
+			if vals, complete := p.FieldReaching(u); complete && len(vals) == 1 {
+				return vals[0]
+			}
+		}
 		return nil
 	}
 	if rs, complete := p.ReachingStores(u); complete && len(rs) > 0 {
